@@ -153,3 +153,11 @@ def register(check):
           floors={"quick": {"registry_runs": 700, "registry_quiescent_checks": 5000, "registry_routed_rpcs": 2000, "registry_rr_windows": 1000, "registry_died_during_registration": 150, "registry_waiters_released": 100, "registry_unroutable_rpcs": 200, "yield:rev.open.betweenAdds": 1000},
                   "thorough": {"registry_runs": 11000, "registry_quiescent_checks": 200000, "registry_routed_rpcs": 80000}},
           assumptions=COMMON_ASSUMPTIONS + ["quiescent consistency is what the property states; linearizability of the two-level registry is not demanded (DESIGN.md C12)"])
+    check("C17",
+          level="exploration",
+          rule="tunnels opened with PRNG metadata (absent, empty, multi-valued, -bin), distinct peers and interceptor-set context values per tunnel, {forward, reverse, nested-ff, nested-rf} and three reverse tunnels sharing one affinity key; 6-15 concurrent unary/bidi RPCs per scenario read every accessor in handlers and callers, "
+               "half of the readers mutate what the accessors returned (values overwritten, keys added); every later reading on every RPC must be unchanged; non-trivial = at least one accessor reading compared; distinct = distinct (cfg, op/outcome shape, metadata)",
+          nontrivial="identity_handler_reads",
+          floors={"quick": {"identity_runs": 180, "identity_handler_reads": 3000, "identity_caller_reads": 1500},
+                  "thorough": {"identity_runs": 7000, "identity_handler_reads": 100000, "identity_caller_reads": 50000}},
+          assumptions=COMMON_ASSUMPTIONS + ["peer equality is not asserted for nested reverse tunnels, whose opening call (a tunneled client stream) carries no peer"])
